@@ -16,6 +16,12 @@ REPO = os.environ.get('VERIF_REPO', '/repo')
 class ExtractError(Exception):
     pass
 
+RECORD_LOOPS = None
+try:
+    LOOP_HEADERS = json.load(open(os.path.join(VF, 'contracts', 'loop_headers.json')))
+except Exception:
+    LOOP_HEADERS = {}
+
 VIEW_NAMES = ['Echo', 'Constant', 'Add', 'Subtract', 'Multiply', 'Divide', 'Tanh', 'GTE', 'LTE', 'Drawdown', 'LnReturn',
               'WelfordRolling', 'Alma', 'BinaryEntropy', 'CenterOfGravity', 'CorrelationTrendIndicator', 'Cumulative',
               'CyberCycle', 'EhlersFisherTransform', 'Ema', 'HLNormalizer', 'LaguerreFilter', 'LaguerreRSI', 'Max', 'Min',
@@ -104,6 +110,7 @@ RULES = {
     'R8': 'Q.get(i) >= P.get(i) on Option<&T>  ->  *Q.get(i).unwrap() >= *P.get(i).unwrap() (equal when both are Some; the unwraps become obligations)',
     'R9': 'in constructors: assert!(c, msg) -> if !(c) { ctor_reject(); }  (a constructor that panics has not accepted its arguments; ctor_reject() never returns)',
     'R10': 'for [&]v in Q.iter() { B }  ->  for r10_i in 0..Q.len() { let v = [&]Q[r10_i]; B }',
+    'R11': 'for x in (A..B).rev() { S }  ->  for r11_k in A..B { let x = B - 1 - (r11_k - A); S }',
     'R6': 'Vec::last().copied() -> same call on a shim helper vec_last(&v) (contract: last element or None)',
 }
 
@@ -133,11 +140,26 @@ def rewrite_body(s, applied):
     # R10: plain iterator loops over a deque/vec -> index loops (fresh index r10_i; contracts refer to the loop index as @I@)
     s = sub('R10', r'for &(\w+) in ((?:self\.)?\w+)\.iter\(\) \{', r'for r10_i in 0..\2.len() { let \1 = \2[r10_i];', s)
     s = sub('R10', r'for (\w+) in ((?:self\.)?\w+)\.iter\(\) \{', r'for r10_i in 0..\2.len() { let \1 = &\2[r10_i];', s)
+    # R11: reversed range loops -> forward index loop with the reversed index bound inside (same iteration order of the index values)
+    while True:
+        m = re.search(r'for (\w+) in \(', s)
+        found = False
+        for m in re.finditer(r'for (\w+) in \(', s):
+            op = m.end() - 1
+            cl = match_close(s, op, '(', ')')
+            tail = re.match(r'\.rev\(\)\s*\{', s[cl + 1:])
+            inner = s[op + 1:cl]
+            if tail and '..' in inner and '..=' not in inner:
+                a, b = inner.split('..', 1)
+                s = s[:m.start()] + 'for r11_k in %s..%s { let %s = %s - 1 - (r11_k - %s);' % (a.strip(), b.strip(), m.group(1), b.strip(), a.strip()) + s[cl + 1 + tail.end():]
+                applied.add('R11'); found = True
+                break
+        if not found: break
     s = sub('R6', r'self\.(\w+)\.last\(\)\.copied\(\)', r'vec_last(&self.\1)', s)
     return s
 
 UNSUPPORTED = [r'\.iter\(\)', r'\.iter_mut\(\)', r'\bunsafe\b', r'\bstatic\b', r'\bCell\b', r'\bRefCell\b', r'\bRc\b', r'\bArc\b',
-               r'\bmin_by\b', r'\bmax_by\b', r'\.fold\(', r'\.sum\(', r'\bwhile let\b']
+               r'\bmin_by\b', r'\bmax_by\b', r'\.rev\(\)', r'\.fold\(', r'\.sum\(', r'\bwhile let\b']
 
 def monomorphise(s):
     s = re.sub(r'impl<T, ', 'impl<', s)
@@ -351,12 +373,25 @@ def inject_fn(em, module, vc, header, body, is_trait_impl, struct_name):
         emit_clauses(em, parse_clauses(ctext), module, name, kinds + ('decreases',))
     # loops: process from the last to the first so that indices stay valid
     loops = find_loops(body)
+    ckey = '%s::%s/loops' % (module, name)
+    if RECORD_LOOPS is not None:
+        RECORD_LOOPS[ckey] = len(loops)
+    elif ckey in LOOP_HEADERS and LOOP_HEADERS[ckey] != len(loops):
+        raise ExtractError('lost anchor: %s::%s now has %d loop(s), its contract was written for %d' % (module, name, len(loops), LOOP_HEADERS[ckey]))
     inserts = []   # (position, text, kind, k)
     for k, (hs, b, c) in enumerate(loops):
         lv = re.match(r'for\s+(\w+)\s+in', body[hs:b])
         lvn = lv.group(1) if lv else 'i'
         lt = vc.get('loop %s %d' % (name, k))
         if lt:
+            # anchor fingerprint: the loop a contract was written for is recognised by its header (loop variable abstracted);
+            # if the header changed the invariants may no longer talk about this loop -> lost anchor, never an alarm
+            fp = re.sub(r'\s+', ' ', re.sub(r'^for\s+\w+\s+in', 'for _ in', body[hs:b].strip()))
+            key = '%s::%s/loop%d' % (module, name, k)
+            if RECORD_LOOPS is not None:
+                RECORD_LOOPS[key] = fp
+            elif LOOP_HEADERS.get(key) is not None and LOOP_HEADERS[key] != fp:
+                raise ExtractError('lost anchor: loop %s now reads `%s` (contract written for `%s`)' % (key, fp, LOOP_HEADERS[key]))
             inserts.append((b, ('LOOP', k, lt.replace('@I@', lvn))))
         le = vc.get('loopend %s %d' % (name, k))
         if le:
@@ -658,6 +693,11 @@ def build(out_path, only=None, exclude=None):
     return report
 
 if __name__ == '__main__':
+    if '--record-loops' in sys.argv:
+        RECORD_LOOPS = {}
+        build(os.path.join(VF, '..', 'gen', 'all.rs'))
+        json.dump(RECORD_LOOPS, open(os.path.join(VF, 'contracts', 'loop_headers.json'), 'w'), indent=1, sort_keys=True)
+        print('recorded %d loop headers' % len(RECORD_LOOPS)); sys.exit(0)
     out = sys.argv[1] if len(sys.argv) > 1 else os.path.join(VF, '..', 'gen', 'all.rs')
     try:
         only = os.environ.get('VERIF_ONLY')
